@@ -177,7 +177,7 @@ pub fn run(run: &mut Run) {
         around frame boundaries, fixed chunks incl. 6120/6121), with transient errors (WouldBlock / Interrupted / TimedOut), Pending \
         polls and 90 s stalls injected, optionally ending mid-frame. The same script drives a blocking and a tokio connection over a \
         scripted transport (paused clock); both result lists must equal the reference model (one result per complete frame, each fault \
-        exactly once at its position, then Disconnected). Short streams: all 2^(n-1) partitions (complete). Streams of N four-byte frames for N around 1530, 2670 and 3060 (the receive buffer's capacity and its multiples) in pieces of 1, 2, 3, 5 bytes, ending right after the last frame. Non-trivial = a frame is \
+        exactly once at its position, then Disconnected). Short streams: all 2^(n-1) partitions (complete). Half of the generated sessions run with the version gate on (what the gate does to one packet must not disturb the next). Streams of N four-byte frames for N around 1530, 2670 and 3060 (the receive buffer's capacity and its multiples) in pieces of 1, 2, 3, 5 bytes, ending right after the last frame. Non-trivial = a frame is \
         split across reads, several frames share a read, or the traffic exceeds the 6120-byte buffer."
         .into();
     run.assumptions = vec![
